@@ -71,6 +71,15 @@ def run(ctx):
                     probs.append('ilength(0) returns %r' % (p.value[0],))
                 if sl_sign == frozenset('0') and not to_rat(p.value[0]).equals(1):
                     probs.append('ilength(L) returns %r' % (p.value[0],))
+                # the boundary answers are for the boundary only: s merely CLOSE to 0 or L (a tolerance test) still has to be inverted
+                try:
+                    v_ = to_rat(p.value[0])
+                except Exception:
+                    v_ = None
+                if v_ is not None and v_.equals(1) and sl_sign != frozenset('0'):
+                    probs.append('returns exactly 1 on a path that does not know s == L (%s)' % p.cond_text()[:80])
+                if v_ is not None and v_.is_zero() and s_sign != frozenset('0'):
+                    probs.append('returns exactly 0 on a path that does not know s == 0 (%s)' % p.cond_text()[:80])
         ctx.record('R07.1', fi.qualname, 'range check and boundary values (%d paths)' % len(paths), not probs, detail='; '.join(probs[:4]),
                    where=where(fi))
     except Undecidable as e:
